@@ -158,6 +158,22 @@ def main():
             continue
         style = 'padded' if sep[0] == ' ' and rng.random() < 0.6 else 'compact'
         cases.append(make_case(trees, sep, style, rng, 'trees-%s-%s' % (fam, style)))
+    # every total number of word tokens in a range (hapaxes and twice-seen words included): the statistics
+    # are ratios of counts, and float formulas that recover counts from probabilities go wrong only at some totals
+    for W in range(40, 261 if ck.thorough else 111):
+        fam = ['ascii', 'multi', 'ipa'][W % 3]
+        sep = SEPS[W % len(SEPS)]
+        lexi = [sl.rand_tree(rng, sl.PHONES[fam], nwords=1)[0] for _ in range(rng.randint(5, 9))]
+        words = [lexi[0], lexi[1], lexi[1], lexi[2]] + [rng.choice(lexi[3:]) for _ in range(W - 4)]
+        rng.shuffle(words)
+        trees = []
+        while words:
+            k = rng.randint(1, 6)
+            trees.append(words[:k])
+            words = words[k:]
+        if not all(sl.tree_ok(t, sep) for t in trees):
+            continue
+        cases.append(make_case(trees, sep, 'compact', rng, 'token-total-sweep'))
     # malformed stream: too few words, empty corpus, no word separator (correspondence only)
     for text, sep in ((['a b ;eword\n'], (' ', None, ';eword')), ([], (' ', None, ';eword')), (['\n', ' \n'], (' ', None, ';eword')),
                       (['a b c\n'], (' ', None, None)), ([';eword\n'], (' ', ';esyll', ';eword')), (['a ;eword b ;eword\n'] * 6, (' ', None, ';eword'))):
